@@ -196,6 +196,7 @@ CHECKS = {
             rapid("chain", "TestC12Chain", {"checks": 15000, "shards": 2}, {"checks": 150000, "shards": 8, "timeout": 6000}),
             rapid("cli", "TestC12CLI", {"checks": 150, "shards": 4, "shrinktime": "10s"}, {"checks": 2500, "shards": 16, "timeout": 6000}),
             rapid("file", "TestC12File", {"checks": 4000, "shards": 2}, {"checks": 40000, "shards": 8, "timeout": 6000}),
+            gofuzz("fuzz-merge", "FuzzC12Merge", 120),
         ],
     },
     "C14": {
